@@ -400,7 +400,7 @@ def strategy(tier):
 
 
 def shards(tier, seed):
-    per = 2000 if tier == 'thorough' else 250
+    per = 2000 if tier == 'thorough' else 1000
     return [{'shard': i, 'n': per} for i in range(16)]
 
 
